@@ -434,4 +434,5 @@ def controls(repo):
             return n
         substitute(fn, pred, make, limit=None)
     out.append(('wrong-transpose', repo.variant({'geodepy/statistics.py': replace_in_function(src, 'vcv_local2cart', untranspose)}), 'vcv_local2cart::3x3'))
+    out.append(('bit-exact-symmetry-demanded', text_variant(repo, 'geodepy/statistics.py', '        elif vcv_local.shape[1] == 3:\n            pass\n', '        elif vcv_local.shape[1] == 3:\n            if not np.array_equal(vcv_local, vcv_local.T):\n                raise ValueError(\'not symmetric\')\n'), 'vcv_local2cart::bit-exact-symmetry'))
     return out
